@@ -31,7 +31,7 @@ DEDUCTIBLE = [
     r'^1098:\d+\.box_1$',
     r'^1040\.charitable_contributions_std_ded$',
 ]
-WITHHOLDING = [r'^w-2:\d+\.box_2$', r'^1099-(int|div|r):\d+\.box_4$', r'^1040\.(other_federal_withholding|estimated_tax_payments)$']
+WITHHOLDING = [r'^w-2:\d+\.box_2$', r'^1099-(int|div|r|g):\d+\.box_4$', r'^1040\.(other_federal_withholding|estimated_tax_payments)$']
 WAGES = [r'^w-2:\d+\.box_1$']
 
 
